@@ -320,6 +320,10 @@ pub fn scenario(name: &str, params: &Value) -> Scenario {
                 }));
                 e.push(Ev::Eof);
                 e.push(Ev::ReadErr);
+                // an inbound message the client has to answer (a pending write error shows here)
+                e.push(Ev::Deliver(inbound(1, false, 60, &[], "plain")));
+                // end-of-stream in the middle of a packet
+                e.push(Ev::PartialThenEof(inbound(0, false, 0, &[], "cut-short"), 3));
                 if !s.m.write_err {
                     e.push(Ev::WriteErr);
                 }
